@@ -48,6 +48,7 @@ def run_case(case) -> Outcome:
     out = Outcome()
     limit, period, form, calls = case["limit"], case["period"], case["form"], case["calls"]
     n = len(calls)
+    t0 = case.get("t0", 0)  # absolute loop time at which the pattern starts (all logged times are relative to it)
     arrivals: list = []  # (index, time) in arrival order
     starts: list = []  # (index, time) in start order
     results: dict = {}
@@ -55,7 +56,7 @@ def run_case(case) -> Outcome:
 
     async def main(loop):
         async def fn(i):
-            starts.append((i, loop.time()))
+            starts.append((i, loop.time() - t0))
             if calls[i]["dur"] > 0:
                 await asyncio.sleep(calls[i]["dur"])
             if calls[i]["out"] == "exc":
@@ -78,7 +79,7 @@ def run_case(case) -> Outcome:
         async def caller(i):
             if calls[i]["a"] > 0:
                 await asyncio.sleep(calls[i]["a"])
-            arrivals.append((i, loop.time()))
+            arrivals.append((i, loop.time() - t0))
             try:
                 results[i] = ("ret", await wrapped(i))
             except asyncio.CancelledError as exc:
@@ -88,10 +89,12 @@ def run_case(case) -> Outcome:
             except BaseException as exc:  # noqa: BLE001 - observation
                 results[i] = ("exc", exc)
 
+        if t0:
+            await asyncio.sleep(t0)
         tasks = [loop.create_task(caller(i)) for i in range(n)]
         for i, c in enumerate(calls):
             if c.get("cancel_at") is not None:
-                loop.call_at(c["cancel_at"], tasks[i].cancel)
+                loop.call_at(t0 + c["cancel_at"], tasks[i].cancel)
         if tasks:
             await asyncio.wait(tasks)
         return None
@@ -206,7 +209,9 @@ def strategy(tier):
                 # that DO start must still hold
                 cancel_at = a + draw(st.sampled_from([0.125, 0.25, 0.5, period / 2 if (period / 2 * 8) % 1 == 0 else 0.25]))
             calls.append({"a": a, "dur": dur, "out": draw(st.sampled_from(["value", "value", "exc"])), "cancel_at": cancel_at})
-        return {"limit": limit, "period": period, "form": form, "calls": calls}
+        # the pattern starts at an absolute time that is not a round number (nothing may depend on where the clock stands)
+        t0 = draw(st.sampled_from([0, 0, 1 / 128, 37 / 128, 1000 + 5 / 1024]))
+        return {"limit": limit, "period": period, "form": form, "calls": calls, "t0": t0}
 
     return cases()
 
